@@ -288,6 +288,61 @@ theorem whole_step_is_from_seconds (cfg : Controller.Cfg) (c : Ctrl) (msgs : Lis
   · cases h
   · cases h
 
+
+/-! ### measurements are stored whatever the other sources' stamps are (C37's clause, over the whole model)
+
+`Model/Controller.step (.source …)` stores the message and only then runs `update_clock`, whose first test
+("another filter is ahead of this message's time") returns early — the order of the code, and of
+`Model/CtrlLoop` (C37.message_always_stored).  A change that tests before storing (seeded change C37-b) drops a
+late message of source A while B is ahead; the stream `steer_whole` compares every stored source state after
+every call and has sources whose stamps lag behind the others'. -/
+
+open NtpVerif.Controller in
+/-- **C01.whole_message_always_stored** — for a registered source, after `source_message` the controller's map
+    holds entry by entry the measurements (identity, stamp, delay, … — everything but the Kalman state, which
+    `progress_time` / steering adjust) and usable flags of the map WITH the message stored, for arbitrary stamps
+    of the other sources; and when another stored snapshot is ahead of the message's time, the map is exactly
+    that one, no clock call is made and no `used_sources` / source message is published. -/
+theorem whole_message_always_stored (cfg : Controller.Cfg) (c : Ctrl) (id : Nat) (snap : Snap) (ft : Nat)
+    (hk : hasKey c.srcs id = true) :
+    let o := Controller.step cfg c (.source id snap ft)
+    metaOf o.ctrl.srcs = metaOf (storeMsg c.srcs id snap) ∧
+    (ahead (storeMsg c.srcs id snap) snap.lastUpdate = true →
+      o.ctrl.srcs = storeMsg c.srcs id snap ∧ o.calls = [] ∧ o.fin = .ok ∧ o.pub.used = none ∧
+      o.pub.srcMsg = none) :=
+  message_always_stored cfg c id snap ft hk
+
+open NtpVerif.Controller in
+/-- **C01.whole_message_entry_stored** — in particular the source's own entry afterwards carries the message's
+    identity and stamp, with its usable flag untouched. -/
+theorem whole_message_entry_stored (cfg : Controller.Cfg) (c : Ctrl) (id : Nat) (snap : Snap) (ft : Nat)
+    (e : Entry) (he : (id, e) ∈ c.srcs) :
+    (id, e.usable, some (snapMeta snap)) ∈ metaOf (Controller.step cfg c (.source id snap ft)).ctrl.srcs :=
+  message_entry_stored cfg c id snap ft e he
+
+section
+open NtpVerif.Controller NtpVerif.Kalman2
+private def k0 (t : Nat) : SourceFilter.KT := ⟨⟨⟨F64.zero, F64.zero⟩, ⟨F64.one, F64.zero, F64.zero, F64.one⟩⟩, t⟩
+private def snapAt (idx t : Nat) (delay : F64) : Snap :=
+  { idx := idx, k := k0 t, wander := F64.zero, delay := delay, period := none, srcUnc := 0, srcDelay := 0,
+    leap := .noWarning, lastUpdate := t }
+private def wcfg : Controller.Cfg :=
+  { steer := witnessCfg, sel := { minAgree := 1, wStat := F64.one, wDelay := F64.one, maxUnc := F64.one },
+    ignoreDispersion := true, initialWander := F64.zero }
+private def c2 : Ctrl :=
+  { srcs := [(1, ⟨some (snapAt 1 5 F64.zero), true⟩), (2, ⟨some (snapAt 2 20 F64.zero), true⟩)],
+    st := witnessSt, td := TimeData.init }
+
+/-- non-vacuity: B (id 2) is ahead at stamp 20; A's (id 1) late message stamped 10 with a NEW delay is stored,
+    nothing reaches the clock -/
+example :
+    ((Controller.step wcfg c2 (.source 1 (snapAt 1 10 F64.one) 0)).ctrl.srcs.map
+        (fun p => (p.1, p.2.snap.map (fun s => (s.lastUpdate, s.delay))))
+      = [(1, some (10, F64.one)), (2, some (20, F64.zero))]) ∧
+    (Controller.step wcfg c2 (.source 1 (snapAt 1 10 F64.one) 0)).calls = [] ∧
+    ahead (storeMsg c2.srcs 1 (snapAt 1 10 F64.one)) 10 = true := by decide
+end
+
 end NtpVerif.C01
 
 #print axioms NtpVerif.C01.startup_steps_within
@@ -307,3 +362,5 @@ end NtpVerif.C01
 #print axioms NtpVerif.C01.whole_accumulated_within_partial
 #print axioms NtpVerif.C01.whole_exit_instead_of_step
 #print axioms NtpVerif.C01.whole_step_is_from_seconds
+#print axioms NtpVerif.C01.whole_message_always_stored
+#print axioms NtpVerif.C01.whole_message_entry_stored
